@@ -54,8 +54,10 @@ fn main() {
             "client" => client::replay(&sc),
             "sink" => sinks::replay(&sc),
             "c12-stress" => sinks::c12_stress(&sc),
+            "c12-flush-contended" => sinks::c12_flush_contended(&sc),
             "holder-window" => holder::replay(&sc),
             "holder-seq" => holder::replay_seq(&sc),
+            "holder-loser-window" => holder::replay_loser_window(&sc),
             "macro" => macros::replay(&sc),
             "queue" | "queue-capacity" | "queue-blocking-emit" | "queue-stats" | "queue-sampler" | "flush-delegation" | "queue-second-consumer" | "queue-drop-calls-sink" => queue::replay(&sc),
             _ => json!({"error": format!("unknown scenario kind {}", kind)}),
